@@ -1,6 +1,6 @@
 (** Entry point "rfb_run": run the RFB client model over a list of chunks. *)
 From Coq Require Import ZArith List Bool String.
-From VD Require Import Base.Bytes Base.Text Base.Sexp Base.PixFmt Model.Engine Model.Rfb.
+From VD Require Import Base.Bytes Base.Text Base.Sexp Base.PixFmt Model.Engine Model.Rfb Model.Image Model.Screen.
 Import ListNotations.
 Open Scope Z_scope.
 
@@ -17,7 +17,7 @@ Definition cfg_of_sexp (s : sexp) : cfg :=
 
 Definition st0 (c : cfg) (pw : option (list Z)) (tape : list (option bytes)) (waiter0 : bool) : st :=
   mk_st c pw (c_username c) (0, 0) (0, 0) 0 [] Gen.Tables.DEFAULT_PIXFMT Gen.Tables.DEFAULT_IMAGE_MODE
-        0 0 false 0 0 [] [] tape waiter0.
+        (-1) (-1) false 0 0 [] [] tape waiter0.
 
 Definition sexp_of_pf (p : pixfmt) : sexp :=
   sZs [pf_bpp p; pf_depth p; pf_bigendian p; pf_truecolor p; pf_rmax p; pf_gmax p; pf_bmax p;
@@ -31,6 +31,7 @@ Definition sexp_of_ev (e : ev) : sexp :=
   | ELose => L [I 3]
   | EPrompt => L [I 4]
   | EMade => L [I 5]
+  | EMode m => L [I 20; I (immode_id m)]
   | EConnected => L [I 6]
   | EErrback => L [I 7]
   | EAuthFailed r => L [I 8; sZs r]
@@ -56,17 +57,37 @@ Definition sexp_of_client (c : client) : sexp :=
   | CRun Crashed => L [I 2]
   end.
 
+(** the screen the library client builds from its callbacks *)
+Definition apply_ev (l : lib) (e : ev) : lib :=
+  let keep (o : option lib) := match o with Some l' => l' | None => l end in
+  match e with
+  | EMode m => mk_lib (screen l) (cur l) m (l_nocursor l) (l_x l) (l_y l)
+  | EUpd x y w h d => keep (update_rect l x y w h d)
+  | EFill x y w h c => keep (fill_rect l x y w h c)
+  | EDesktopSize w h => keep (resize l w h)
+  | ECursor x y w h i m => keep (update_cursor l x y w h i m)
+  | _ => l
+  end.
+
+Definition sexp_of_screen (l : lib) : sexp :=
+  match screen l with
+  | None => L []
+  | Some im => L [I (iw im); I (ih im); sZs (flat_bytes im)]
+  end.
+
 (* fuel: generous bound on handler invocations for the total input size *)
 Definition d_rfb_run (a : sexp) : sexp :=
   match as_list a with
-  | [c; pw; tape; w0; chunks] =>
+  | [c; pw; tape; w0; chunks; want_screen] =>
       let cf := cfg_of_sexp c in
       let tp := map (fun t => match as_list t with [d] => Some (as_Zs d) | _ => None end) (as_list tape) in
       let chs := map as_Zs (as_list chunks) in
       let total := fold_left (fun n ch => (n + List.length ch)%nat) chs 0%nat in
       let fuel := (4 * total + 64)%nat in
       match run_client fuel (CInitial (st0 cf (opt_text pw) tp (as_bool w0)) []) chs with
-      | Some (es, cl) => L [L (map sexp_of_ev es); sexp_of_client cl]
+      | Some (es, cl, n) =>
+          L [L (map sexp_of_ev es); sexp_of_client cl; I (Z.of_nat n);
+             if as_bool want_screen then sexp_of_screen (fold_left apply_ev es (lib0 (c_nocursor cf))) else L []]
       | None => L [I (-3)]     (* out of fuel: the model would spin *)
       end
   | _ => sErr
